@@ -173,7 +173,16 @@ def check_case(case, ctx):
         try:
             dec = c2.C2Http(cfg, **kw)
             req = dec.transform_get.transform(c2.C2Data(metadata=blob), c2.HttpRequest(method=dec.get_verb, uri=dec.get_uris[0], params={}, headers={}, body=b""))
-            pk = list(dec.iter_recover_http(req)) if "rsa_private_key" in kw else [None]
+            if "rsa_private_key" not in kw:
+                pk = [None]
+            elif case["seed"] % 3 == 0:
+                # a caller that only takes the check-in itself and leaves the iterator unfinished
+                it = dec.iter_recover_http(req)
+                pk = [next(it)]
+                del it
+                variant += ",first-packet-only"
+            else:
+                pk = list(dec.iter_recover_http(req))
         except Exception as e:  # noqa: BLE001
             ctx.violation("derive.session", f"[{variant}] {type(e).__name__}: {e}", case)
             return
